@@ -65,9 +65,13 @@ def judge(proj, rec, box, cfg, built, expected, pre=None):
     known = set(os.path.join("proj", r) for r in list(proj.files) + list(proj.extra)) | {"proj/Breadlog.yaml", "proj/Breadlog.lock"} | set(pre or ())
     left = sorted(p for p, v in core.snapshot(box.root, content=False).items() if v[0] != "d" and p not in known)
     normal_exit = rec.rc is not None
-    if fired_fail and rec.rc == 0:
+    # "fails to create, write or move into place the new content of any file": judged by the outcome, not by the mere fact that
+    # an operation failed - an implementation may recover (retry, fall back to another scratch location) and still update the file
+    not_updated = sorted(rel for rel, s in states.items() if s == "original" and expected.get(rel))
+    if fired_fail and rec.rc == 0 and not_updated:
         o = fired_fail[0]
-        v.append(("update-failed-but-exit-0", {"op": (o["n"], o["kind"], os.path.basename(o["path"]), o["fired"]), "phase": fault.phase_of(o)}))
+        v.append(("update-failed-but-exit-0", {"op": (o["n"], o["kind"], os.path.basename(o["path"]), o["fired"]), "phase": fault.phase_of(o),
+                                                "files_not_updated": not_updated[:3]}))
     if rec.rc == 0:
         pr = rec.inserted()
         if pr is not None and pr != ntok:
@@ -124,7 +128,7 @@ def work(job):
                 # leftovers are in the foreign TMPDIR; every rename must have failed for real
                 real_fail = [o for o in rec.shim if o["kind"] == "rename" and o["errno"] == 18]
                 res["counters"]["real_exdev_renames"] = len(real_fail)
-                if real_fail and rec.rc == 0:
+                if real_fail and rec.rc == 0 and any(s == "original" and expected.get(rel) for rel, s in states.items()):
                     v.append(("update-failed-but-exit-0", {"op": "rename -> EXDEV (real cross-device TMPDIR)", "phase": "tmp-rename"}))
                 if box_tmp_left and rec.rc is not None:
                     v.append(("temporary-file-left-behind", {"files": box_tmp_left[:3], "exit": rec.rc}))
